@@ -456,6 +456,19 @@ func c05HostileRecords() [][]byte {
 // definitions that are syntactically fine for sqlittle's parser but do not
 // fit the table/index they are attached to, and plain garbage
 func c05HostileSQL() []string {
+	out := c05HostileSQLBase()
+	// every ASCII punctuation character at the start of a token, inside a name, and at the very end of the text
+	for c := byte(0x21); c < 0x7f; c++ {
+		if (c >= '0' && c <= '9') || (c >= 'A' && c <= 'Z') || (c >= 'a' && c <= 'z') {
+			continue
+		}
+		ch := string([]byte{c})
+		out = append(out, "CREATE TABLE t1 (a, "+ch+"b, c)", "CREATE TABLE t1 (a"+ch+"b, c) "+ch)
+	}
+	return out
+}
+
+func c05HostileSQLBase() []string {
 	return []string{
 		``, `x`, `CREATE`, `CREATE TABLE`, `CREATE TABLE t1`, `CREATE TABLE t1 (`, `CREATE TABLE t1 ()`, `SELECT a FROM t1`,
 		`CREATE TABLE t1 (a)`, `CREATE TABLE t1 (a, PRIMARY KEY (nosuch))`, `CREATE TABLE t1 (a, PRIMARY KEY (a+1))`,
@@ -740,7 +753,7 @@ type c05Shard struct {
 }
 
 func runC05(r *ev.Run) {
-	r.Rule = "base images: 5 small dbgen images (512-byte pages: two-level table and index trees, multi-page overflow chains in a rowid table, an index, a WITHOUT ROWID table and sqlite_master itself, multi-page sqlite_master; the fifth image runs the chain, field and trunc families only in the quick tier); mutants: (field) every structural field x a boundary alphabet (0, 1, +-1, 0x7f/0x80/0xff patterns, own page, every page, page count+1, 9-byte/negative varints, every serial type), (byte) every byte x 8 boundary values (x256 thorough), (chain) overflow chains whose last page points back to each page of the chain (cycle through the first page / cycle with a tail) x declared payload lengths {real, 4000, 2^20, 2^31, 2^40, 2^62}, (trunc) every length multiple of 64 and around page boundaries, (sql) hostile CREATE texts in sqlite_master, (field2, thorough) pairs of related fields in one page, (journal) journal header fields x lengths on real files; every mutant runs every public operation in a worker subprocess; oracle: no panic, live heap < 3 GB, < 20 s CPU per operation. non-trivial = mutants (all differ from the base)"
+	r.Rule = "base images: 5 small dbgen images (512-byte pages: two-level table and index trees, multi-page overflow chains in a rowid table, an index, a WITHOUT ROWID table and sqlite_master itself, multi-page sqlite_master; the fifth image runs the chain, field and trunc families only in the quick tier); mutants: (field) every structural field x a boundary alphabet (0, 1, +-1, 0x7f/0x80/0xff patterns, own page, every page, page count+1, 9-byte/negative varints, every serial type), (byte) every byte x 8 boundary values (x256 thorough), (chain) overflow chains whose last page points back to each page of the chain (cycle through the first page / cycle with a tail) x declared payload lengths {real, 4000, 2^20, 2^31, 2^40, 2^62}, (trunc) every length multiple of 64 and around page boundaries, (sql) hostile CREATE texts in sqlite_master incl. every ASCII punctuation character at the start of a token, inside a name and at the end of the text, (field2, thorough) pairs of related fields in one page, (journal) journal header fields x lengths on real files; every mutant runs every public operation in a worker subprocess; oracle: no panic, live heap < 3 GB, < 20 s CPU per operation. non-trivial = mutants (all differ from the base)"
 	bin := os.Getenv("VCHECK_BIN")
 	if bin == "" {
 		bin, _ = os.Executable()
